@@ -84,6 +84,7 @@ var Mutants = map[string][]Mutant{
 		{"arc cut relative to the arc start", "path.go", `ellipseSplit\(rx, ry, phi, cx, cy, startTheta, theta2, theta\)`, `ellipseSplit(rx, ry, phi, cx, cy, theta1, theta2, theta)`, "E11.cut-carried"},
 	},
 	"C06": {
+		{"intersection parameters snapped by exact comparison only", "path_intersection_util.go", `\} else if 1\.0 < tb \|\| Equal\(tb, 1\.0\) \{`, "} else if 1.0 < tb {", "E9.endpoint-snap"},
 		{"ellipse hit flagged tangent by the value of the root", "path_intersection_util.go", `\t\ttangent := len\(roots\) == 1 // the line touches the ellipse[^\n]*\n`, "\t\ttangent := Equal(root, 0.0)\n", "E9.tangent-from-roots"},
 		{"Filling prunes enclosers by the fast bounds of the inner sub-path", "path.go", `(?s)(func \(p \*Path\) Filling\(fillRule FillRule\) \[\]bool \{.*?)\t\t\tif i == j \{`, "${1}\t\t\tif i == j || !pj.FastBounds().Contains(pi.FastBounds()) {", "E3.containment-filter"},
 		{"windings counts interior tangent hits", "path.go", `\t\t\tif !z\.Tangent \{\n\t\t\t\tn \+= d`, "\t\t\tif !z.Same {\n\t\t\t\tn += d", "E9.tangent-not-counted"},
@@ -230,6 +231,7 @@ var Mutants = map[string][]Mutant{
 		{"Text.Heights uses the first line's top", "text.go", `\t_, ascent, _, _ := firstLine\.Heights\(t\.WritingMode\)`, "\tascent, _, _, _ := firstLine.Heights(t.WritingMode)", "E3.line-heights"},
 	},
 	"C17": {
+		{"overflow breakpoint takes the running totals", "text/linebreak.go", `(\t\t\t\t\t\t\tWidth:    width,\n)\t\t\t\t\t\t\tW:        W,\n\t\t\t\t\t\t\tY:        Y,\n\t\t\t\t\t\t\tZ:        Z,\n(\t\t\t\t\t\t\tRatio:    0\.0,)`, "${1}\t\t\t\t\t\t\tW:        lb.W,\n\t\t\t\t\t\t\tY:        lb.Y + 0*Y + 0*W,\n\t\t\t\t\t\t\tZ:        lb.Z + 0*Z,\n${2}", "E11.break-sums"},
 		{"forced break deactivates feasible nodes only", "text/linebreak.go", `\t\t\tif ratio < -1\.0 \|\| item\.Type == PenaltyType && item\.Penalty <= -Infinity \{\n\t\t\t\tlb\.activeNodes\.Remove\(active\)\n\t\t\t\tlb\.inactiveNodes\.Push\(active\)\n\t\t\t\}\n`, "\t\t\tif ratio < -1.0 || ratio <= tolerance && item.Type == PenaltyType && item.Penalty <= -Infinity {\n\t\t\t\tlb.activeNodes.Remove(active)\n\t\t\t\tlb.inactiveNodes.Push(active)\n\t\t\t}\n", "E4.forced-break-deactivates"},
 		{"break list sized before looseness picks the node", "text/linebreak.go", `(?s)\tif looseness != 0 \{\n\t\ts := 0\n\t\tk := b\.Line\n(.*?)breaks := make\(\[\]\*Breakpoint, b\.Line\+1\)`, "\tk := b.Line\n\tif looseness != 0 {\n\t\ts := 0\n${1}breaks := make([]*Breakpoint, k+1)", "E4.alloc-covers-index"},
 		{"break list one entry short", "text/linebreak.go", `breaks := make\(\[\]\*Breakpoint, b\.Line\+1\)`, "breaks := make([]*Breakpoint, b.Line)", "E4.alloc-covers-index"},
